@@ -56,7 +56,7 @@ func envOr(k, dflt string) string {
 // Workloads in the order the generators use them.
 var Workloads = []string{"hashtable-iterate", "set-iterate", "first-follow", "grammar-transform", "ll1-table",
 	"lr-slr", "lr-lalr", "lr-canonical", "automata-determinize", "hash-api", "ordered-tables", "tries", "heaps",
-	"lexer-input", "structures", "mixed"}
+	"lexer-input", "graphs-dot", "structures", "mixed"}
 
 // apiPrefixes: which exported API entries (names as in the regenerated table, by prefix) a workload calls
 // directly.  Used ONLY to order the witness search (workloads that reach a flagged package-level variable
@@ -76,6 +76,7 @@ var apiPrefixes = map[string][]string{
 	"tries":                {"trie."},
 	"heaps":                {"heap."},
 	"lexer-input":          {"lexer/input."},
+	"graphs-dot":           {"graph.", "dot.", "heap.binomial.DOT", "heap.fibonacci.DOT", "automata.NFA.DOT", "automata.DFA.DOT"},
 	"structures":           {"sort.", "radixsort.", "list.", "unionfind."},
 }
 
@@ -484,12 +485,16 @@ func header(w string, procs int, seed uint64, iters, k int) string {
 }
 
 // search is a witness-search round of bin/check: a proof obligation or the correspondence already broke
-// (typically: the regenerated table is no longer empty).  Bounded to about 25 s; the workloads from which
+// (typically: the regenerated table is no longer empty).  Bounded to about 18 s; the workloads from which
 // the flagged package-level variables are reachable go first, each under several GOMAXPROCS values,
 // goroutine counts and seeds; the round ends at the first failing case.
 func search(run *hx.Run) {
-	deadline := time.Now().Add(25 * time.Second)
 	ws, vars := flaggedWorkloads()
+	budget := 18 * time.Second
+	if len(ws) == 0 {
+		budget = 8 * time.Second // nothing to aim at: no workload calls an API that reaches a flagged variable
+	}
+	deadline := time.Now().Add(budget)
 	run.Stats.Extra["search_flagged_variables"] = vars
 	run.Stats.Extra["search_directed_at"] = ws
 	seen := map[string]bool{}
